@@ -7,16 +7,16 @@ CONSTANTS
   ImgLists <- Lists3x2
   PubPaths = {1, 2}
   MaxRuns = 2
-  Modes = {"image"}
+  Modes = {"sign"}
   Iters = {1, 2}
   OutPaths = {0, 1, 2}
   MaxSteps = 2
   SizeClasses <- AllSizes
   UnitLens <- UnitLensSmall
-  Setups <- SetupsDef
+  Setups <- FlatSetups
   AuthSetups <- AuthSetupsDef
   Forms <- FormsDef
   AltForm <- AltFormDef
-  Variant = "fileorder"
-INVARIANT HashInputOk
+  Variant = "byname"
+INVARIANT SigVerifies
 CHECK_DEADLOCK FALSE
